@@ -185,11 +185,17 @@ class HashTable:
         else:
             self._values.fill(value)
 
+    def _flat_values(self):
+        if isinstance(self._values, Number):
+            # all keys still share one scalar value
+            return np.full(self._keys.size, self._values, dtype=self._value_dtype)
+        return self._values.ravel()
+
     def items(self):
-        return zip(self._keys.ravel(), self._values.ravel())
+        return zip(self._keys.ravel(), self._flat_values())
 
     def to_dict(self):
-        return dict(zip(self._keys.ravel(), self._values.ravel()))
+        return dict(zip(self._keys.ravel(), self._flat_values()))
 
 
 @implements(np.zeros_like)
